@@ -7,5 +7,6 @@ EmitCont ==
                         [] c.rep = "chunked" -> <<c.cuts[1], c.cuts[2], c.n>>
                         [] OTHER -> <<Len(c.buf)>>,
               logical |-> Logical(c),
+              sorted_desc |-> SortSeq(Logical(c), Desc),
               contiguous |-> ContiguousInOrder(c)])>>)
 =============================================================================
